@@ -37,6 +37,57 @@ def _isspace_ranges(kind):
     return _isspace_cache[kind]
 
 
+def _finite_units(t):
+    """the element terms of a sequence term that is structurally a finite concatenation of units, else None"""
+    t = z3.simplify(t)
+    if z3.is_app(t):
+        k = t.decl().kind()
+        if k == z3.Z3_OP_SEQ_EMPTY:
+            return []
+        if k == z3.Z3_OP_SEQ_UNIT:
+            return [t.arg(0)]
+        if k == z3.Z3_OP_SEQ_CONCAT:
+            out = []
+            for c in t.children():
+                r = _finite_units(c)
+                if r is None:
+                    return None
+                out += r
+            return out
+    return None
+
+
+def _concrete_str_list(t, ety):
+    """Python list of str / bytes when the list term consists of constants only, else None"""
+    elems = _finite_units(t)
+    if elems is None:
+        return None
+    out = []
+    for e in elems:
+        cs = _finite_units(e)
+        if cs is None or not all(z3.is_int_value(c) for c in cs):
+            return None
+        codes = [c.as_long() for c in cs]
+        out.append("".join(map(chr, codes)) if ety == "str" else bytes(codes))
+    return out
+
+
+class ObjDict(dict):
+    """dict with concrete keys whose values are objects with identity (no SMT sort): a finite Python map"""
+
+
+class SetVal:
+    """A Python set in one of two forms: mode 'seq' - the elements of a symbolic list (membership only);
+    mode 'cond' - finitely many concrete elements, each present under a condition (membership, len, truth,
+    intersection, list() when at most one element can be present)."""
+
+    def __init__(self, mode, ety, seq=None, items=None):
+        self.mode, self.ety, self.seq, self.items = mode, ety, seq, items or []
+
+    def __repr__(self):
+        return "SetVal(%s, %r)" % (self.mode, self.seq if self.mode == "seq" else [e.pyval for e, _c in self.items])
+
+
 F_REMATCH = z3.Function("re_matches", I, z3.StringSort(), SeqI, B)
 F_REGROUP = z3.Function("re_group", I, z3.StringSort(), I, SeqI, SeqI)
 F_REGROUPNONE = z3.Function("re_group_is_none", I, z3.StringSort(), I, SeqI, B)
@@ -350,9 +401,6 @@ class SpecLib:
         t = z3.Concat(*[z3.Unit(unwrap(ety, x)) for x in items]) if len(items) > 1 else z3.Unit(unwrap(ety, items[0]))
         return VBox("list", VSeq("list", ety, t))
 
-    def make_set(self, ex, items):
-        raise Unsupported("set display")
-
     def make_dict(self, ex, items):
         if items:
             raise Unsupported("non-empty dict display")
@@ -383,6 +431,9 @@ class SpecLib:
         if isinstance(container, VTuple):
             return z3.Or(*[ex.eq(item, x) for x in container.items]) if container.items else z3.BoolVal(False)
         c = self.seqval(container)
+        if isinstance(item, VOpt) and isinstance(c, VSeq) and c.kind == "list" and not (isinstance(c.ety, tuple) and c.ety[0] == "opt"):
+            # None is never an element of a list of non-optional values
+            return z3.And(z3.Not(item.isnone), self.contains(ex, container, item.val))
         if isinstance(c, VSeq):
             if c.kind in ("str", "bytes") and isinstance(item, VSeq):
                 if c.pyval is not None and item.pyval is not None:
@@ -427,6 +478,8 @@ class SpecLib:
         return None
 
     def binop(self, ex, op, a, b):
+        if isinstance(op, ast.BitAnd) and isinstance(a, VBox) and a.kind == "set" and isinstance(b, VBox) and b.kind == "set":
+            return self.set_intersection(ex, a, b)
         return None
 
     def identical(self, ex, a, b):
@@ -491,7 +544,54 @@ class SpecLib:
             box.val = VSeq("list", s.ety, z3.Concat(s.t, r.t))
 
     def container_len(self, ex, box):
+        if box.kind == "set" and isinstance(box.val, SetVal) and box.val.mode == "cond":
+            if not box.val.items:
+                return z3.IntVal(0)
+            return z3.Sum(*[z3.If(c, 1, 0) for _e, c in box.val.items]) if len(box.val.items) > 1 \
+                else z3.If(box.val.items[0][1], 1, 0)
         raise Unsupported("len of %r" % (box,))
+
+    def make_set(self, ex, v):
+        """set(iterable): concrete iterables give a finite conditional set, symbolic lists a membership-only set"""
+        self.use("set: membership / intersection / len / truth; iteration order is not modelled (list(s) only for <= 1 element)")
+        if isinstance(v, list):                  # a set display {a, b}
+            v = VTuple(v)
+        if isinstance(v, VBox) and v.kind == "set":
+            sv = v.val
+            return VBox("set", SetVal(sv.mode, sv.ety, sv.seq, list(sv.items)))
+        s = self.seqval(v) if not isinstance(v, VTuple) else None
+        conc = None
+        if isinstance(s, VSeq) and s.kind == "list" and s.pyval is None and s.ety in ("str", "bytes"):
+            conc = _concrete_str_list(s.t, s.ety)        # e.g. a list display of constants followed by append(constant)
+        if isinstance(v, VTuple) or (isinstance(s, VSeq) and s.pyval is not None) or conc is not None:
+            elems = v.items if isinstance(v, VTuple) else [lift(x) for x in (conc if conc is not None else s.pyval)]
+            if not all(isinstance(e, VSeq) and e.pyval is not None for e in elems):
+                raise Unsupported("set of non-concrete elements")
+            seen, items = set(), []
+            for e in elems:
+                if e.pyval not in seen:
+                    seen.add(e.pyval)
+                    items.append((e, z3.BoolVal(True)))
+            return VBox("set", SetVal("cond", elems[0].kind if elems else "str", items=items))
+        if isinstance(s, VSeq) and s.kind == "list":
+            return VBox("set", SetVal("seq", s.ety, seq=s))
+        raise Unsupported("set(%r)" % (v,))
+
+    def set_contains(self, ex, box, item):
+        sv = box.val
+        if isinstance(item, VOpt):
+            item = ex.deopt(item)
+        if sv.mode == "seq":
+            return z3.Contains(sv.seq.t, z3.Unit(unwrap(sv.ety, item)))
+        return z3.Or(*[z3.And(c, ex.eq(e, item)) for e, c in sv.items]) if sv.items else z3.BoolVal(False)
+
+    def set_intersection(self, ex, a, b):
+        if a.val.mode == "seq" and b.val.mode == "cond":
+            a, b = b, a
+        if a.val.mode == "cond":
+            return VBox("set", SetVal("cond", a.val.ety,
+                                      items=[(e, z3.simplify(z3.And(c, self.set_contains(ex, b, e)))) for e, c in a.val.items]))
+        raise Unsupported("intersection of two symbolic sets")
 
     def _dkey(self, ex, box, key):
         if isinstance(key, VOpt):
@@ -499,6 +599,12 @@ class SpecLib:
         return unwrap(box.val.kty, key)
 
     def dict_get(self, ex, box, key, node=None):
+        if isinstance(box.val, ObjDict):
+            if not (isinstance(key, VSeq) and key.pyval is not None):
+                raise Unsupported("symbolic key into a dict of objects")
+            if key.pyval not in box.val:
+                ex.raise_(KeyError, node=node)
+            return box.val[key.pyval]
         self.use("dict: key set + value array (unordered view)")
         if box.val is None:
             ex.raise_(KeyError, node=node)
@@ -508,6 +614,15 @@ class SpecLib:
         return wrap(box.val.vty, z3.Select(box.val.vals, k))
 
     def dict_set(self, ex, box, key, v):
+        if isinstance(box.val, ObjDict) or (box.val is None and isinstance(v, VObj) and v.cls not in REC_CLASSES):
+            # objects with identity as values: only concrete keys (a Python dict of values)
+            if not (isinstance(key, VSeq) and key.pyval is not None):
+                raise Unsupported("symbolic key into a dict of objects")
+            self.use("dict with concrete keys holding objects: a finite map")
+            nd = ObjDict(box.val or {})
+            nd[key.pyval] = v
+            box.val = nd
+            return
         self.use("dict: key set + value array (unordered view)")
         if box.val is None:
             if isinstance(key, VOpt):
@@ -518,6 +633,12 @@ class SpecLib:
         box.val = DictVal(d.kty, d.vty, z3.Store(d.keys, k, z3.BoolVal(True)), z3.Store(d.vals, k, unwrap(d.vty, v)))
 
     def box_contains(self, ex, box, item):
+        if box.kind == "dict" and isinstance(box.val, ObjDict):
+            if not (isinstance(item, VSeq) and item.pyval is not None):
+                raise Unsupported("symbolic key into a dict of objects")
+            return z3.BoolVal(item.pyval in box.val)
+        if box.kind == "set" and isinstance(box.val, SetVal):
+            return self.set_contains(ex, box, item)
         if box.kind == "dict":
             if box.val is None:
                 return z3.BoolVal(False)
@@ -879,6 +1000,17 @@ class SpecLib:
                 r = self.getslice(ex, seq, cur, NONE)
                 v.val = (seq, VInt(z3.If(cur.t > n, cur.t, n)))
                 return VBox("list", VSeq("list", seq.ety, r.t, view=r.view))
+            if isinstance(v, VBox) and v.kind == "set" and isinstance(v.val, SetVal):
+                sv = v.val
+                if sv.mode != "cond":
+                    raise Unsupported("list(set) of a symbolic set (iteration order)")
+                n = self.container_len(ex, v)
+                if ex.decided(n <= 1) is not True:
+                    raise Unsupported("list(set) when the set may hold more than one element (iteration order is not modelled)")
+                srt = sort_of(("list", sv.ety))
+                parts = [z3.If(c, z3.Unit(e.t), z3.Empty(srt)) for e, c in sv.items]
+                t = z3.Empty(srt) if not parts else parts[0] if len(parts) == 1 else z3.Concat(*parts)
+                return VBox("list", VSeq("list", sv.ety, t))
             s = self.seqval(v)
             if isinstance(s, VSeq) and s.kind == "list":
                 return VBox("list", VSeq("list", s.ety, s._t, view=s.view, py=s.pyval))
@@ -886,6 +1018,19 @@ class SpecLib:
                 return self.make_list(ex, v.items)
             raise Unsupported("list(%r)" % (v,))
         B_["list"] = b_list
+
+        def b_set(ex, a, kw):
+            if not a:
+                return VBox("set", SetVal("cond", "str", items=[]))
+            return self.make_set(ex, a[0])
+        B_["set"] = b_set
+
+        def set_intersection(ex, a, kw):
+            other = a[1]
+            if not (isinstance(other, VBox) and other.kind == "set"):
+                other = self.make_set(ex, other)
+            return self.set_intersection(ex, a[0], other)
+        M[("set", "intersection")] = set_intersection
 
         def b_getattr(ex, a, kw):
             obj, name = a[0], a[1]
